@@ -207,6 +207,7 @@ int main(int argc, char **argv) {
                 }
                 mal.push_back(al);
             }
+            std::vector<vx::Stage> micro_stages;
             plan.rule += " || micro-grammars:";
             for (size_t mi = 0; mi < micros.size(); mi++) {
 #ifdef VX_ASAN
@@ -241,8 +242,10 @@ int main(int argc, char **argv) {
                         ctx.acc.outcome(h);
                     });
                 };
-                plan.stages.push_back(s3);
+                micro_stages.push_back(s3);
             }
+            // the micro-grammars run first: they are short, and what they leave of their share of the budget goes to the big stages
+            plan.stages.insert(plan.stages.begin(), micro_stages.begin(), micro_stages.end());
             plan.bounds += " micro=" + std::to_string(mk);
         }
         plan.assumptions = {"ASan/UBSan (asan variants, with and without the exact-fit growth hook) or a PROT_NONE page behind the text (fast variant)",
